@@ -1,12 +1,14 @@
 PROP = dict(
-    drivers=['Uni', 'Font'],
-        gens=['unsafe_sites'],
-        lake=['IcyVerif.Props.C10'],
+    drivers=['Uni', 'Font', 'UniMacro'],
+        gens=['unsafe_sites', 'unimacro'],
+        lake=['IcyVerif.Props.C10', 'IcyVerif.Props.C10Macro'],
         ns='IcyVerif.C10',
         theorems=['site_parse_hex_macro_sequence_0', 'hex_macro_body_bytes', 'maxMacroLen_synced', 'site_read_data_compressed_0',
-                  'all_sites_covered', 'fill_rect_scalar', 'clipboard_cell_scalar', 'clipboard_layer_scalar',
+                  'all_sites_covered', 'fill_rect_scalar', 'fill_rect_block_decides', 'icy_char_block_decides', 'clipboard_cell_scalar', 'clipboard_layer_scalar',
                   'icy_char_scalar', 'lossy_valid_utf8', 'lossy_id_on_valid', 'valid_utf8_decidable',
-                  'font_keys_scalar', 'font_basic_keys_scalar', 'font_loops_scalar'],
+                  'font_keys_scalar', 'font_basic_keys_scalar', 'font_loops_scalar',
+                  'dcs_record_scalar', 'macro_table_valid_utf8', 'macro_table_validator', 'text_macro_stored_verbatim',
+                  'hex_macro_stored', 'macro_clear', 'macro_table_sites_known'],
         harness='c10',
         harness_timeout=1500,
         design='DESIGN.md §4 C10',
@@ -19,17 +21,37 @@ PROP = dict(
                   'code that replaced them (char::from_u32 + reject/skip/U+FFFD, from_utf8_lossy as the Utf8Chunks automaton) with '
                   'theorems for all 32-bit values / all byte strings; differential correspondence ties every data-flow model to the '
                   'real crate, and an independent oracle scans every stored cell / title / font name / SAUCE string after each case. '
-                  'All cases run in child processes because an invalid char aborts the process in this build profile.',
-        rule='cases: DECFRA fill parameter at all scalar-range boundaries + seeded values in 0..2^31; hex-macro bodies (all 256 byte '
-             'values, repeats, bad digits, non-ASCII look-alikes); clipboard records (all 16-bit classes, truncated records); IcyDraw '
-             'layer chunks with 32-bit/8-bit character fields in first and continuation chunks, titles/font names as arbitrary bytes; '
-             'PSF1/PSF2/raw/DCS fonts with 0..2^17 glyphs and header-controlled length; random ANSI streams, IcyDraw chunks, XBin/ADF/'
-             'IDF/… files with SAUCE (oracle only); std::str::from_utf8 vs the Lean validator. distinct_nontrivial = distinct case descriptors',
+                  'All cases run in child processes because an invalid char aborts the process in this build profile. '
+                  'Macro bodies (the Strings of Parser::macros) have their own model (Model/UniMacro.lean: DCS recorder, number loop and '
+                  'dispatch of execute_dcs, parse_macro, text and hex bodies, RIS) with an invariant proved by induction over ALL histories '
+                  '(macro_table_valid_utf8) and exactness theorems (text_macro_stored_verbatim, hex_macro_stored); the translator pins '
+                  'parse_macro_sequence / parse_macro / the number loop / the tail of parse_hex_macro_sequence and regenerates an inventory of '
+                  'every mention of the field `macros` (macro_table_sites_known); the stored BYTES are observed through the verif_dcs_view hook. '
+                  'Every number that flows into a conversion is generated over the complete boundary structure of its space '
+                  '(harness/src/unibounds.rs), justified by fill_rect_block_decides / icy_char_block_decides.',
+        rule='cases: DECFRA fill parameter and IcyDraw 32-bit character fields (both decoders) over the whole boundary structure of the '
+             'parameter space in EVERY run: each scalar-range boundary, shifted by / xor-ed with each constant a hand-written range test uses '
+             '(0x800, 0x1000, 0xD800, 0xE000, 0x10000, 0x100000, 0x110000, 0x200000), ±1; 0x11D800/0x11DFFF/0x11E000; powers of two ±1; '
+             '2^31-1 / 2^32-1 / the parser maximum 2147483599; first, last and a seeded member of every 0x800-aligned block below 0x200000; '
+             'seeded members of every octave above (histogram fill:value:* / icyc:value:*); clipboard records: ALL 65536 16-bit fields in '
+             'every run (256 records of 256 cells) + classes, truncated records; hex-macro bodies (all 256 byte values, repeats, bad digits, '
+             'look-alikes of every hex digit under `as u8`); macro table histories (family macro): text macros whose last / first character '
+             'is every two-byte character, three-/four-byte characters by every final byte, every (lead, second) byte pair and '
+             '(second-to-last, last) pair, hex macros whose last / first character is every byte value (plain, closed and trailing repeat '
+             'groups), long bodies across every power-of-two byte length up to and beyond the macro space, number-prefix quirks, malformed '
+             'introducers, ESC pairs, clears, RIS, seeded histories; the UTF-8 boundary structure (every non-ASCII lead byte x edges of the '
+             'second-byte ranges x tails) for titles / font names and for std::str::from_utf8 vs the Lean validator; PSF1/PSF2/raw/DCS fonts '
+             'and from_basic/create_8 with glyph counts around both ends of the surrogate block for every loader, up to 2^17 glyphs, '
+             'header-controlled length; random ANSI streams, IcyDraw chunks, XBin/ADF/IDF/… files with SAUCE (oracle only). '
+             'distinct_nontrivial = distinct case descriptors',
         modelled='fill_rectangular_area (fill char), parse_hex_macro_sequence (whole state machine, observed through DECCKSR), '
+                 'the macro table as a store of Strings: RecordDCS/RecordDCSEscape, execute_dcs number loop and dispatch, parse_macro, '
+                 'parse_macro_sequence (text macros), the insert of hex macros, RIS — stored bytes observed through verif_dcs_view, '
                  'Layer::from_clipboard_data (whole function incl. index panics), IcyDraw cell character fields (both decoders), '
                  'read_utf8_encoded_string (from_utf8_lossy), BitFont::from_bytes / glyphs_from_u8_data / calculate_checksum / '
                  'convert_to_u8_data / to_psf2_bytes (shared with C17), XBin compression tag',
-        not_modelled='the rest of the ANSI parser and the file loaders (covered by the oracle scan only: safe code cannot create an '
+        not_modelled='macro invocation inside a DCS (ESC [ in RecordDCSEscape) and the execution of replayed macros (C01/C03/C17 models; here: '
+                     'oracle scan after replay); the rest of the ANSI parser and the file loaders (covered by the oracle scan only: safe code cannot create an '
                      'invalid char); PNG/zlib/base64 containers; other crates\' unsafe code',
         assumptions=['Rust type safety: code without `unsafe` cannot produce an invalid char or String (the inventory lists every unsafe block in src/)',
                      'dependencies (png, base64, regex, …) are not inventoried'],
